@@ -32,10 +32,11 @@ import (
 
 // certSlots describes the revocation sources one non-root certificate names.
 type certSlots struct {
-	OCSP     []string // per URL: "ok" | "badurl" | "scheme"
-	NCRL     int
-	Freshest bool
-	CRLKinds []string // per distribution point: "" / "ok" = http URL, "ldap" | "https" | "ftp" = that scheme
+	OCSP        []string // per URL: "ok" | "badurl" | "scheme"
+	NCRL        int
+	Freshest    bool
+	FreshestRaw string   // with Freshest: raw extension value (as a string so that the slot stays comparable / printable)
+	CRLKinds    []string // per distribution point: "" / "ok" = http URL, "ldap" | "https" | "ftp" = that scheme
 }
 
 type revChain struct {
@@ -48,15 +49,23 @@ var revChainCache sync.Map
 // revRootNamesSources: chains built while it is set have a root that names an OCSP responder and a CRL distribution point
 var revRootNamesSources bool
 
+// revSelfIssuedIntermediate: chains (length >= 3) built while it is set have a self-issued, not self-signed, CA below the root
+var revSelfIssuedIntermediate bool
+
 // buildRevChain builds (and caches) a valid chain of n certificates whose non-root
 // certificates name the given sources. noCRLSign[i]: certificate i (an issuer) lacks cRLSign.
 func buildRevChain(purp string, slots []certSlots, noCRLSign map[int]bool, bigSerial map[int]int) *revChain {
 	n := len(slots) + 1
-	key := fmt.Sprintf("%s|%v|%v|%v|%v", purp, slots, noCRLSign, bigSerial, revRootNamesSources)
+	key := fmt.Sprintf("%s|%v|%v|%v|%v|%v", purp, slots, noCRLSign, bigSerial, revRootNamesSources, revSelfIssuedIntermediate)
 	if v, ok := revChainCache.Load(key); ok {
 		return v.(*revChain)
 	}
 	p := basePlan(n, purp, "ec256b")
+	if revSelfIssuedIntermediate && n > 2 {
+		// a key-rollover certificate: the CA below the root carries the root's name (issuer == subject) but its own key
+		// and the root's signature; it is not self-signed, so the chain is valid, and it is not the trust anchor
+		p.certs[n-2].spec.CN = p.certs[n-1].spec.CN
+	}
 	if revRootNamesSources && n > 1 {
 		// the trust anchor itself names a responder and a distribution point: they must never be consulted
 		p.certs[n-1].spec.OCSP = []string{"http://ocsp.test/root/o0"}
@@ -74,6 +83,9 @@ func buildRevChain(purp string, slots []certSlots, noCRLSign map[int]bool, bigSe
 			p.certs[i].spec.CRL = append(p.certs[i].spec.CRL, u)
 		}
 		p.certs[i].spec.Freshest = slots[i].Freshest
+		if slots[i].FreshestRaw != "" {
+			p.certs[i].spec.FreshestRaw = []byte(slots[i].FreshestRaw)
+		}
 		if n := bigSerial[i]; n > 0 {
 			// n octets 0x7f 0xff 0xff ...: in base64 mostly '/' characters, each of which triples when URL-escaped, so
 			// that 60 octets give a request below 255 characters in base64 and above it once escaped
@@ -130,8 +142,9 @@ type revCase struct {
 	PanicValue     string
 	GoroutineDelta int
 	CallersAgree   bool
-	Summary        string // results of the main call
-	WantCallers    string // if set: what the concurrent callers must see (results of a reference run without cancellation)
+	Summary        string              // results of the main call
+	WantCallers    string              // if set: what the concurrent callers must see (results of a reference run without cancellation)
+	WarmChain      []*x509.Certificate // Entry 0: the same validator object first validates this chain (it names no sources), then the case's chain
 }
 
 type certOut struct {
@@ -352,6 +365,17 @@ func runRevCaseFull(c *revCase) (string, string, map[string]any, []certOut, bool
 				c.PanicValue = fmt.Sprint(r)
 			}
 		}()
+		if len(c.WarmChain) > 0 && c.Entry == 0 {
+			v, e := revocation.NewWithOptions(revocation.Options{OCSPHTTPClient: client, CRLFetcher: fetcher, CertChainPurpose: purp})
+			if e != nil {
+				panic(e)
+			}
+			validator = v
+			func() {
+				defer func() { recover() }()
+				validator.ValidateContext(context.Background(), revocation.ValidateContextOptions{CertChain: c.WarmChain})
+			}()
+		}
 		res, err = call()
 	}()
 	c.Summary = summarizeResults(res, err)
@@ -424,7 +448,8 @@ func runRevCaseFull(c *revCase) (string, string, map[string]any, []certOut, bool
 			var srv []string
 			for _, s := range r.ServerResults {
 				uid := 0
-				if s.Server != "" {
+				emptyNamed := s != nil && s.Server == "" && i < len(xs) && containsStr(xs[i].OCSPServer, "")
+				if s.Server != "" || emptyNamed { // the empty string may itself be a responder URI the certificate names
 					uid = urlIDs.id([]byte(s.Server))
 				}
 				// every server result is labelled with the method that produced it (results.go): OCSP for a responder,
@@ -433,6 +458,8 @@ func runRevCaseFull(c *revCase) (string, string, map[string]any, []certOut, bool
 				want := -1
 				switch {
 				case s == nil:
+				case emptyNamed:
+					want = int(result.RevocationMethodOCSP)
 				case s.Server == "":
 					want = int(result.RevocationMethodUnknown)
 					if c.Entry == 1 && i < len(res)-1 {
